@@ -158,11 +158,13 @@ def _decide(L, rule, cons, where, got, ref, what):
 
 
 def run_block_stmts(t: Translator, stmts):
-    for st in stmts:
-        if isinstance(st, ast.Expr) and isinstance(st.value, ast.Call):
-            t.tr(st.value)
-        else:
-            t.run_block([st])
+    """Value-number a block; effectful calls (also inside decided branches) go to the translator's hooks.  Returns the
+    value of the `return` reached, evaluated in the final state, or None."""
+    t.expr_calls = True
+    r = t.run_block(list(stmts))
+    if r is not None and r[1] is not None:
+        return t.tr(r[1])
+    return None
 
 
 def verlet_constrained(prog: Program, L: Ledger, rule: str) -> None:
@@ -308,9 +310,24 @@ def run(prog: Program, L: Ledger) -> None:
 
         t.hooks.insert(0, sub_hook)
         try:
-            run_block_stmts(t, mb.body())
+            returned = run_block_stmts(t, mb.body())
         except Unsupported as exc:
             raise AnalysisError(f"maxwell_boltzmann_distribution: {exc}") from exc
+        if returned is not None and _refresh_value_used(prog):
+            # a refresh that reports a kinetic energy (callers may store it as the trial's reference): it must be that of
+            # the momenta it leaves on the atoms
+            try:
+                got_r = sp.simplify(_ek_normal(sp.sympify(returned), Gs))
+                want_r = sp.simplify(_ek_normal(EKf(sp.sympify(st.p)), Gs))
+            except Unsupported as exc:
+                raise AnalysisError(f"maxwell_boltzmann_distribution: returned value `{returned}`: {exc}") from exc
+            unk = [k for k, s_ in vocab.unknown.items() if s_ in got_r.free_symbols]
+            if unk:
+                raise AnalysisError(f"maxwell_boltzmann_distribution: returned value mentions unrecognised sources {unk[:3]}")
+            drop_eps = lambda e_: e_.xreplace({f_: 0 for f_ in e_.atoms(sp.Float) if abs(f_) < 1e-9})  # noqa: E731
+            L.check(sp.simplify(drop_eps(got_r) - drop_eps(want_r)) == 0, "KE", f"maxwell_boltzmann_distribution[forced={forced}]:returned-kinetic-energy", mb.where,
+                    f"the refresh returns `{got_r}` while the momenta it leaves on the atoms have kinetic energy `{want_r}`: a caller that records the returned value as the trial's initial kinetic energy uses that of momenta that are no longer there",
+                    "HMC with a forced refresh: ΔH in the acceptance test is off by the rescaling of the kinetic energy", "returned")
         G, T, kB, mm = vocab.sym("G", real=True), vocab.sym("T", positive=True), vocab.sym("kB", positive=True), vocab.sym("m", positive=True)
         base = G * sp.sqrt(mm * kB * T)
         if forced:
@@ -346,6 +363,20 @@ def run(prog: Program, L: Ledger) -> None:
                 "momenta are not standard-normal draws from the simulation generator scaled by sqrt(m·kB·T)" + (" and by sqrt(T_target/T_actual)" if forced else ""))
 
     check_kinetic_reference(prog, L, "KE")
+
+
+def _refresh_value_used(prog: Program) -> bool:
+    """Does any call of the momentum refresh (the move's `distribution` slot or the shipped function by name) use the
+    value it returns?  A refresh whose return value every caller drops may return anything."""
+    for fi in prog.iter_functions():
+        for st in ast.walk(fi.node):
+            if not isinstance(st, ast.stmt):
+                continue
+            for c in ast.walk(st) if not isinstance(st, (ast.FunctionDef, ast.For, ast.While, ast.If, ast.With, ast.Try)) else ():
+                if isinstance(c, ast.Call) and ((isinstance(c.func, ast.Attribute) and c.func.attr == "distribution") or (isinstance(c.func, ast.Name) and c.func.id == "maxwell_boltzmann_distribution")):
+                    if not (isinstance(st, ast.Expr) and st.value is c):
+                        return True
+    return False
 
 
 def check_kinetic_reference(prog: Program, L: Ledger, rule: str) -> None:
